@@ -147,6 +147,8 @@ type fileBackend struct {
 	s2c  *bpipe
 	// closeFails: the server answers CLOSE with a failure status
 	closeFails bool
+	// wfailEOF: failing WRITE chunks are answered with SSH_FX_EOF
+	wfailEOF bool
 }
 
 func newFileBackend(t testing.TB, tr *tracer, o fileOpts, content []byte, bad []int, seed int64) *fileBackend {
@@ -262,6 +264,20 @@ func runFileScenario(t testing.TB, tr *tracer, o fileOpts, sc fileScenario, seed
 	tr.reset(hdr)
 	b := newFileBackend(t, tr, o, content, sc.Bad, seed)
 	defer b.close()
+	// in one scenario out of five a failing WRITE is answered with the status code SSH_FX_EOF (which the client turns into io.EOF):
+	// an error like any other - it must not be taken for "the source is exhausted"
+	if seed%5 == 2 && len(sc.Bad) > 0 {
+		switch {
+		case b.pr != nil:
+			b.pr.mu.Lock()
+			b.pr.writeFailEOF = true
+			b.pr.mu.Unlock()
+			b.wfailEOF = true
+		case b.sess != nil && b.sess.v != nil:
+			b.sess.v.writeFailEOF = true
+			b.wfailEOF = true
+		}
+	}
 	// in one scenario out of four the server answers CLOSE with a failure status (having released the handle)
 	if seed%4 == 1 {
 		switch {
@@ -299,6 +315,10 @@ func runFileScenario(t testing.TB, tr *tracer, o fileOpts, sc fileScenario, seed
 			ev["srckind"] = c.Src
 		}
 		tr.emit("FCall", ev)
+		posBefore := int64(0)
+		if p0, e := f.Seek(0, io.SeekCurrent); e == nil {
+			posBefore = p0
+		}
 		n, consumed := 0, 0
 		var delivered []byte
 		var cerr error
@@ -384,6 +404,22 @@ func runFileScenario(t testing.TB, tr *tracer, o fileOpts, sc fileScenario, seed
 		ec := errClass(cerr)
 		if c.API == "Close" && strings.HasPrefix(ec, "other:") {
 			ec = "fail"
+		}
+		if b.wfailEOF && cerr == io.EOF && (c.API == "WriteAt" || c.API == "Write" || c.API == "ReadFrom") {
+			// every failing chunk carries the same io.EOF: name it after the lowest bad byte of the range written, as the server did
+			start := posBefore
+			if c.API == "WriteAt" {
+				start = int64(c.Off)
+			}
+			low := -1
+			for _, x := range sc.Bad {
+				if int64(x) >= start && int64(x) < start+int64(len(data)) && (low < 0 || x < low) {
+					low = x
+				}
+			}
+			if low >= 0 {
+				ec = fmt.Sprintf("E@%d", low)
+			}
 		}
 		tr.emit("FRet", kv{"n": n, "err": ec, "data": ints(delivered), "pos": pos, "after": ints(b.content()), "consumed": consumed})
 	}
